@@ -52,6 +52,98 @@ def stream_uses(fn, var_pred):
     return out
 
 
+# C library file operations that report failure only through their return value: in the save path a dropped or
+# tolerated failure means the destination was not (completely) produced although save returns normally
+STATUS_CALLS = {'rename': 'the finished file is moved onto the destination', 'fclose': 'buffered output is flushed by fclose',
+                'fflush': 'buffered output is flushed', 'fsync': 'the file is synchronised', 'fwrite': 'the block is written', 'fputc': 'the byte is written',
+                'fputs': 'the text is written', 'link': 'the file is linked onto the destination'}
+
+
+def status_calls_rule(prog, res, w, save):
+    from paths import Renderer
+    n_calls = 0
+    for u in sorted(set(save) | {w.usr}):
+        f = prog.funcs.get(u)
+        if f is None or f.body is None:
+            continue
+        R = None
+        for c in f.calls():
+            cal = c['callee']
+            if cal.get('inrepo') or cal.get('class') or cal['name'] not in STATUS_CALLS:
+                continue
+            n_calls += 1
+            R = R or Renderer(f)
+            inst = '%s in %s' % (cal['name'], f.name)
+            what = STATUS_CALLS[cal['name']]
+            # the statement the call belongs to
+            guard = None
+            stmt_parent = None
+            prev = c['id']
+            direct = True
+            for a in f.ancestors(c['id']):
+                an = f.nodes[a]
+                if an['k'] == 'IfStmt':
+                    if prev == an.get('cond') or prev in f.descendants(an['cond']):
+                        guard = an
+                    else:
+                        stmt_parent = {'k': 'CompoundStmt'} if direct else an
+                    break
+                if an['k'] in ('CompoundStmt', 'ForStmt', 'WhileStmt', 'DoStmt', 'CXXForRangeStmt', 'CaseStmt', 'DefaultStmt', 'SwitchStmt', 'DeclStmt', 'ReturnStmt'):
+                    stmt_parent = an if (direct or an['k'] != 'CompoundStmt') else {'k': 'other'}
+                    break
+                if an['k'] not in ('ImplicitCastExpr', 'ParenExpr', 'ExprWithCleanups', 'CStyleCastExpr', 'CXXStaticCastExpr', 'CXXFunctionalCastExpr'):
+                    direct = False
+                prev = a
+            if guard is None and stmt_parent is not None and stmt_parent['k'] == 'CompoundStmt':
+                res.viol('status', inst, f.loc(c['id']), 'the result of %s() is dropped (%s): when it fails, save still returns normally' % (cal['name'], what),
+                         function=f.sig, expr='%s@drop' % cal['name'], sure=True)
+                continue
+            if guard is None:
+                res.undecided('status', inst, f.loc(c['id']), 'the result of %s() is used in a form the rule does not read [shape not read by the rule]' % cal['name'],
+                              function=f.sig, expr='%s@use' % cal['name'])
+                continue
+            cond = R.render(guard['cond']).replace('(bool)', '')
+            callr = R.render(c['id'])
+            fail_then = None
+            cc = cond.strip()
+            while cc.startswith('(') and cc.endswith(')') and cc[1:-1].count('(') == cc[1:-1].count(')') and not cc[1:-1].startswith(')'):
+                cc = cc[1:-1].strip()
+            neg = 0
+            while cc.startswith('!'):
+                neg += 1
+                cc = cc[1:].strip()
+                while cc.startswith('(') and cc.endswith(')') and cc[1:-1].count('(') == cc[1:-1].count(')'):
+                    cc = cc[1:-1].strip()
+            if cc == callr:
+                fail_then = True
+            elif cc in (callr + ' != 0', '0 != ' + callr, callr + ' < 0', callr + ' == -1', callr + ' > 0' if cal['name'] in ('rename', 'fclose', 'fflush', 'fsync', 'link') else '#'):
+                fail_then = True
+            elif cc in (callr + ' == 0', '0 == ' + callr, callr + ' >= 0'):
+                fail_then = False
+            if fail_then is None or cal['name'] in ('fwrite', 'fputc', 'fputs'):
+                res.undecided('status', inst, f.loc(c['id']), 'the test on the result of %s() is not in a form the rule reads (%s) [shape not read by the rule]' % (cal['name'], cond),
+                              function=f.sig, expr='%s@cond' % cal['name'])
+                continue
+            if neg % 2:
+                fail_then = not fail_then
+            branch = guard['then'] if fail_then else guard.get('else')
+            leaves = False
+            if branch is not None:
+                for d in f.descendants(branch):
+                    dn = f.nodes[d]
+                    if dn['k'] == 'CXXThrowExpr' or (dn['k'] in ('CallExpr', 'CXXMemberCallExpr') and dn.get('callee', {}).get('noreturn')):
+                        leaves = True
+            if not leaves and not fail_then and 'else' not in guard:
+                # `if (ok) {...}` then falls through: failure continues after the if
+                branch = None
+            if leaves:
+                res.ok('status', inst, f.loc(c['id']), 'a failing %s() reaches a throw' % cal['name'], function=f.sig, expr='%s@%d' % (cal['name'], c['id']))
+            else:
+                res.viol('status', inst, f.loc(c['id']), 'when %s() fails (%s) no exception is raised on that branch: save returns normally although the destination was not produced' % (cal['name'], what),
+                         function=f.sig, expr='%s@tolerated' % cal['name'], sure=True)
+    res.info['status_returning_file_calls_in_save_path'] = n_calls
+
+
 def run(prog, tier):
     res = Result('C15', tier,
                  'Typestate analysis (failed/dirty/open/throwing) of the output stream over every CFG '
@@ -139,6 +231,7 @@ def run(prog, tier):
                         res.viol('opener', 'output stream opened outside c3d::write', f.loc(n['id']),
                                  'another function opens a file for output: its state is not checked',
                                  function=f.sig, expr='open')
+    status_calls_rule(prog, res, w, save)
     res.minimum('stream uses in section writers', nstream_uses, 20)
     res.minimum('output-file openers', openers, 1)
 
